@@ -43,6 +43,7 @@ MUTANTS = [
     ("C04", "quiet", "specs/openapi/schemas.py", "    return next(iter(content.values()), None)", "    for definition in content.values():\n        return definition\n    return None", "first documented media type written as a loop"),
     ("C04", "detect", CHK, "        if header.lower() not in response.headers and definition.get(case.operation.schema.header_required_field, False)", "        if header not in response.headers and definition.get(case.operation.schema.header_required_field, False)", "documented header names compared case-sensitively"),
     ("C04", "detect", CHK, "    if missing_headers:\n        formatted_headers", "    if len(missing_headers) > 1:\n        formatted_headers", "a single missing required header is not reported"),
+    ("C04", "detect", "specs/openapi/schemas.py", "        definition = _find_response_definition(responses, response.status_code)\n        if definition is None:\n            return None\n        return self.resolver.resolve_in_scope", "        definition = _find_response_definition(responses, 200)\n        if definition is None:\n            return None\n        return self.resolver.resolve_in_scope", "headers / media types always taken from the 200 definition"),
     # ---- C05
     ("C05", "detect", UNIT, "    except (FailureGroup, Failure):\n        status = Status.FAILURE", "    except (FailureGroup, Failure):\n        status = Status.SUCCESS", "failure swallowed in run_test"),
     ("C05", "detect", UNIT, "        and ctx.config.execution.continue_on_failure\n", "        and not ctx.config.execution.continue_on_failure\n", "continue_on_failure inverted"),
